@@ -57,7 +57,7 @@ def overlay_file():
     return p
 
 
-def disk_hygiene(min_free_gb=40):
+def disk_hygiene(min_free_gb=30):
     """The go build cache grows by gigabytes per mutated low-level package and crashed runs leave scratch
     directories behind; when space is short drop what has not been used for an hour."""
     try:
@@ -68,7 +68,7 @@ def disk_hygiene(min_free_gb=40):
         cache = subprocess.run(["go", "env", "GOCACHE"], capture_output=True, text=True, env=go_env()).stdout.strip()
         for d, pat in ((cache, None), (os.path.join(BUILD, "run"), None), (os.path.join(BUILD, "bin"), "*.[0-9]*.test")):
             if d and os.path.isdir(d):
-                cmd = ["find", d, "-mindepth", "1", "-mmin", "+60"]
+                cmd = ["find", d, "-mindepth", "1", "-mmin", "+150"]
                 if d == cache:
                     cmd += ["-type", "f"]
                 elif pat:
